@@ -213,6 +213,14 @@ func (P *Program) callEffect(U *Universe, ef *Effects, call ssa.CallInstruction,
 			callees[fn] = append(callees[fn], mc)
 			return
 		}
+		// a func value: when no func of this signature can come from outside
+		// the package, the callee is one of the package's own closures
+		if fn.Pkg != nil {
+			if cs, closed := P.closuresOfSig(fn.Pkg, c.Signature()); closed {
+				callees[fn] = append(callees[fn], cs...)
+				return
+			}
+		}
 		ef.All = true
 	}
 }
@@ -238,4 +246,69 @@ func externName(fn *ssa.Function) string {
 		return typeName(fn.Signature.Recv().Type()) + "." + fn.Name()
 	}
 	return fn.String()
+}
+
+// closuresOfSig returns the functions of pkg whose value may flow into a
+// func-typed variable of the given signature, and whether that set is closed
+// (no exported entry point accepts or stores such a func value).
+func (P *Program) closuresOfSig(pkg *ssa.Package, sig *types.Signature) ([]*ssa.Function, bool) {
+	// exported API that takes funcs of this signature opens the set
+	open := false
+	check := func(t types.Type) {
+		if s, ok := t.Underlying().(*types.Signature); ok && types.Identical(s, sig) {
+			open = true
+		}
+	}
+	for _, fn := range P.Funcs {
+		if fn.Pkg != pkg || fn.Object() == nil || !fn.Object().Exported() {
+			continue
+		}
+		ps := fn.Signature.Params()
+		for i := 0; i < ps.Len(); i++ {
+			check(ps.At(i).Type())
+		}
+	}
+	sc := pkg.Pkg.Scope()
+	for _, n := range sc.Names() {
+		if tn, ok := sc.Lookup(n).(*types.TypeName); ok && tn.Exported() {
+			if st, ok := tn.Type().Underlying().(*types.Struct); ok {
+				for i := 0; i < st.NumFields(); i++ {
+					if st.Field(i).Exported() {
+						check(st.Field(i).Type())
+					}
+				}
+			}
+		}
+	}
+	if open {
+		return nil, false
+	}
+	var out []*ssa.Function
+	for _, fn := range P.Funcs {
+		if fn.Pkg != pkg && (fn.Parent() == nil || fn.Parent().Pkg != pkg) {
+			continue
+		}
+		if !types.Identical(fn.Signature, sig) {
+			// closures: signature without receiver
+			continue
+		}
+		// only functions whose value is taken somewhere: closures and referenced funcs
+		if fn.Parent() != nil {
+			out = append(out, fn)
+			continue
+		}
+		if fn.Referrers() != nil {
+			// package-level function used as a value
+		}
+	}
+	// package-level functions used as values (method values / func refs)
+	for _, fn := range P.Funcs {
+		if fn.Pkg != pkg || fn.Parent() != nil || fn.Signature.Recv() != nil {
+			continue
+		}
+		if types.Identical(fn.Signature, sig) {
+			out = append(out, fn)
+		}
+	}
+	return out, true
 }
